@@ -91,11 +91,12 @@ def checkLincomb (o : Opts) (p : Nat) (coeffs : List SNum) (scale : Q) (words : 
   match parseLincomb words with
   | none => some s!"cannot read the rendered terms {words}"
   | some (terms, ell) =>
-    let half : Q := (1 : Q) / (2 * (10 : Q) ^ p) + mkRat 1 (10 ^ 12)
+    -- half a unit of the last place; a normalised entry is an f64 quotient, off by at most one ulp of its value
+    let half : Q := (1 : Q) / (2 * (10 : Q) ^ p)
     let bad := terms.find? (fun t =>
       match coeffs[t.idx]? with
       | none => true
-      | some c => !(absQ (t.mag - c.mag / scale) ≤ half) || (t.neg != c.neg))
+      | some c => !(absQ (t.mag - c.mag / scale) ≤ half + (if scale != 1 then (c.mag / scale) * mkRat 1 (2 ^ 51) + mkRat 1 (10 ^ 12) else 0)) || (t.neg != c.neg))
     match bad with
     | some t => some s!"term {if t.neg then "-" else "+"}{t.mag} ${t.idx} does not show the stored coefficient {(coeffs[t.idx]?.map (·.val)).getD 0}{if scale != 1 then s!" / {scale}" else ""} at precision {p}"
     | none =>
@@ -161,7 +162,7 @@ def judgeC19 : P Verdict := do
             let scale : Q := if o.normalize && !allZero row then maxMag row else 1
             match parseSigned b with
             | some (ng, q) =>
-              if ng != bias.neg || !(absQ (q - bias.mag / scale) ≤ (1 : Q) / (2 * (10 : Q) ^ prec) + mkRat 1 (10 ^ 12)) then
+              if ng != bias.neg || !(absQ (q - bias.mag / scale) ≤ (1 : Q) / (2 * (10 : Q) ^ prec) + (if scale != 1 then (bias.mag / scale) * mkRat 1 (2 ^ 51) + mkRat 1 (10 ^ 12) else 0)) then
                 return .propfail s!"[C19] bias rendered as {b} but the stored bias is {bias.val}{if scale != 1 then s!" / {scale}" else ""}"
             | none => return .propfail s!"[C19] cannot read the bias in '{line}'"
             if let some msg := checkLincomb o prec row scale revLin.reverse then return .propfail s!"[C19] {msg} (line '{line}')"
